@@ -1,11 +1,11 @@
 """Runner for the per-property checks (see /verif/check and DESIGN.md 3c)."""
 import fcntl, hashlib, json, os, re, shutil, subprocess, sys, time
 
-V = '/verif'
+V = os.environ.get('VERIF_ROOT') or os.path.dirname(os.path.dirname(os.path.abspath(__file__)))
 REPO = '/repo'
 BUILD = V + '/build'
 LEAN = V + '/lean'
-ENV = dict(os.environ, GOFLAGS='-mod=mod', GOPROXY='off', GOSUMDB='off', GOTOOLCHAIN='local')
+ENV = dict(os.environ, GOFLAGS='-mod=mod', GOPROXY='off', GOSUMDB='off', GOTOOLCHAIN='local', VERIF_ROOT=V)
 ALLOWED_AXIOMS = {'propext', 'Classical.choice', 'Quot.sound'}
 
 TRUSTED_BASE = [
@@ -240,6 +240,8 @@ class Cmp:
         if mode == 'errcount' and op == 'validate':
             f = lambda s: (s.split(' ')[0], s.rsplit(' ', 1)[-1]) if s.startswith('err ') else ('ok',)
             return str(f(impl)), str(f(model))
+        if mode == 'firsttoken':
+            return impl.split(' ', 1)[0], model.split(' ', 1)[0]
         if mode == 'panic':
             return ('PANIC' if 'PANIC' in impl else ''), ''
         return impl, model
@@ -283,6 +285,7 @@ RULES = {
     'pairs09': 'accepted configurations x requests answered with debug on and off; non-preflights must get identical responses, preflights must not reach the handler; distinct by case hash',
     'twins': 'accepted configurations x a twin obtained by permuting/duplicating list entries, re-casing header names, re-spelling normalisable methods, adding safelisted methods/response headers; both middlewares answer derived requests and the Go responses are compared; distinct by case hash',
     'roundtrip': 'accepted configurations: middlewares from c, from Config(), zero+Reconfigure(&c), Reconfigure(Config()); five derived requests in both debug modes compared pairwise; Config() stable after one round trip; distinct by case hash',
+    'intents': 'accepted configurations x browser intents derived from them (allowed / near-miss origin, configured / pooled method in page spelling, 0-4 header names incl. Authorization in several cases, credentials include/omit, private-network target yes/no) x debug x tolerated ACRH perturbations; the harness sends the browser-built preflight and the actual request through the real middleware, the Lean browser model (Spec/Browser.lean) reads both responses and its verdict is compared with Browser.permits',
     'schedule': 'configuration pairs (incl. to/from passthrough) x debug x requests derived from them x three schedule points (first Header() call, WriteHeader, entry of the wrapped handler) x three operations (Reconfigure to the other configuration, SetDebug flip, Config()) executed exactly at that point from inside the request; the response must be that of the state at request entry (compared with a fresh middleware in that state, Go against Go) and the next request that of the new state',
     'stress': '12 reader goroutines against 2 reconfiguring goroutines (alternating two configurations, checking Config() against the two normal forms) and one SetDebug toggler; every response must equal the response of one of the four (configuration, debug) states; thorough tier runs a -race build',
     'allocs': 'testing.AllocsPerRun(20, ServeHTTP) with a reusable writer for 56 families (allow-all / discrete / `*`+Authorization / credentialed `*` configurations x debug on/off x actual GET with long Origin, preflights with long Origin / long ACRM / long ACRH name / many ACRH elements / many ACRH lines / padded allowed list) at every size of the family; every family is a distinct non-trivial case',
@@ -333,7 +336,7 @@ def C(suite, mode='full', kind='tie', only=None):
 PROPS = {
     'C01': dict(suites=[('tree', 1500, 60000), ('lex', 1500, 40000), ('serve', 3000, 60000)],
                 cmps=[C('tree', 'treebits', 'spec'), C('lex', 'full', 'tie', only=('parse',)), C('serve', 'bitsPA', 'spec')]),
-    'C02': dict(suites=[('serve', 4000, 120000)], cmps=[C('serve', 'full', 'tie')]),
+    'C02': dict(suites=[('intents', 6000, 200000), ('serve', 3000, 80000)], cmps=[C('intents', 'firsttoken', 'spec'), C('serve', 'full', 'tie')]),
     'C03': dict(suites=[('serve', 6000, 150000)], cmps=[C('serve', 'c03', 'tie')]),
     'C04': dict(suites=[('validate', 3000, 100000), ('names', 300, 20000), ('lex', 1000, 20000)],
                 cmps=[C('validate', 'accept', 'spec'), C('names', 'full', 'tie'), C('lex', 'full', 'tie', only=('pattern',))]),
